@@ -63,9 +63,9 @@ def r20_target(repo, sink):
     for e in ads:
         f = repo.resolve(e.cls, "pinged", "method")
         it = _Rec(repo)
-        src = Obj(label="source")
-        me = Obj(cls=e.cls, label=e.name)
-        me.fields.update(_source=src, logger=Logger(label="logger"))
+        from .exchange import _adapter as _mk_adapter
+        src = Obj(label="source", markers={"IOutput", "IAdapter"}, fields={"logger_name": "src", "name": "src"})
+        me = _mk_adapter(repo, e.cls, src=src)
         down = Obj(label="target")
         try:
             it.run(f, [down], self_obj=me)
@@ -111,14 +111,17 @@ def r20_target(repo, sink):
     out = repo.cls("Output")
     pg = repo.resolve(out, "pinged", "method")
     it = _Rec(repo)
+    from ..absbase import seed_from_init
+    from .buffer import _registry_attr
     o = Obj(cls=out, label="Output")
-    o.fields.update(_connected_inputs={}, logger=Logger(label="logger"))
-    a, b = Obj(label="target"), Obj(cls=repo.cls(ads[0].name), label="adapter")
+    seed_from_init(it, out, o, {"name": "out", "info": None, "static": False})
+    o.fields["logger"] = Logger(label="logger")
+    a, b = Obj(label="target", fields={"name": "a"}), Obj(cls=repo.cls(ads[0].name), label="adapter")
     it.run(pg, [a], self_obj=o)
     it.run(pg, [b], self_obj=o)
-    sink.check(o.fields["_connected_inputs"] == {a: None, b: None}, "R20", "pinged:Output", pg,
+    sink.check(o.fields[_registry_attr(repo)] == {a: None, b: None}, "R20", "pinged:Output", pg,
                ok="every registered consumer starts with last request None (nothing is evicted before it pulled)",
-               bad=f"Output.pinged leaves {o.fields['_connected_inputs']!r}")
+               bad=f"Output.pinged leaves {o.fields[_registry_attr(repo)]!r}")
     # notification forwarding: buffer first, then notify downstream, same unchanged time
     ad = repo.cls("Adapter")
     su = repo.resolve(ad, "source_updated", "method")
@@ -147,9 +150,11 @@ def r20_target(repo, sink):
     tn = Sym("tn")
     od.name(tn, "tn", 1)
     it = _N(repo, od)
-    me = Obj(cls=rep.cls, label=rep.name)
-    me.fields.update(logger=Logger(label="logger"), _targets=_quiet_targets(), name="a")
-    me.fields["targets"] = me.fields["_targets"]
+    from .exchange import _adapter as _mk_adapter3
+    me = _mk_adapter3(repo, rep.cls)
+    for tq in _quiet_targets():
+        it.run(repo.resolve(rep.cls, "add_target", "method"), [tq], self_obj=me)
+    it.events = []
     try:
         it.run(su, [tn], self_obj=me)
         want = [("buffer", tn), ("notify", "tgt1", tn), ("notify", "tgt2", tn)]
@@ -170,8 +175,8 @@ def r20_target(repo, sink):
         pass
     outn = repo.resolve(repo.cls("Output"), "notify_targets", "method")
     it = _N(repo, od)
-    o = Obj(cls=repo.cls("Output"), label="Output")
-    o.fields.update(logger=Logger(label="logger"), _targets=_quiet_targets(), _static=False, name="o")
+    from .exchange import built_output
+    o = built_output(repo, "Output", targets=_quiet_targets())
     it.run(outn, [tn], self_obj=o)
     sink.check(it.events == [("notify", "tgt1", tn), ("notify", "tgt2", tn)], "R20", "notify-all-targets", outn,
                ok="an output notifies every target with the publication time", bad=f"Output.notify_targets performs {it.events!r}")
@@ -292,7 +297,9 @@ def r20p_every_request_pulls(repo, sink):
 
             def thunk(it=it, c=c, f=f, ta=ta, tb=tb):
                 me = _adapter(repo, c)
-                me.fields.update(_output_info=Obj(label="info"), initial_time=Sym("t_init"))
+                from ..absbase import set_backed
+                set_backed(repo, me, "info", Obj(label="info"))
+                me.fields.update(initial_time=Sym("t_init"))
                 it.pulls = []
                 it.run(f, [q, ta], self_obj=me)
                 it.run(f, [q, tb], self_obj=me)
@@ -326,8 +333,10 @@ def r30_delay(repo, sink):
                    ok="uses TimeDelayAdapter.get_data", bad=f"{e.name} overrides get_data: delay protocol bypassed")
     # protocol by abstract run
     it = _DelayRec(repo)
-    me = Obj(cls=repo.cls("DelayFixed") if repo.has_cls("DelayFixed") else tda, label="delay")
-    me.fields.update(logger=Logger(label="logger"), _output_info=Obj(label="info"), name="d")
+    from ..absbase import set_backed
+    from .exchange import _adapter as _mk_adapter2
+    me = _mk_adapter2(repo, repo.cls("DelayFixed") if repo.has_cls("DelayFixed") else tda)
+    set_backed(repo, me, "info", Obj(label="info"))
     q = Sym("q")
     it.order.name(q, "q", 1)
     tgt = Obj(label="target")
@@ -690,11 +699,10 @@ def r17_pushpath(repo, sink):
             q1, q2 = Sym("q1"), Sym("q2")
             it.order.name(q1, "q1", 1)
             it.order.name(q2, "q2", 2)
-            me = Obj(cls=repo.cls("CallbackOutput"), label="CallbackOutput")
+            from .exchange import built_output
             cb = Obj(label="stub")
-            me.fields.update(callback=Sym("stubcall", Ref(cb), "provider"), _output_info=Obj(label="info"), _out_infos_exchanged=1,
-                             _connected_inputs={Obj(label="t"): None}, last_data=None, logger=Logger(label="logger"), name="o",
-                             _targets=[Obj(label="t")])
+            me = built_output(repo, "CallbackOutput", ctor={"callback": Sym("stubcall", Ref(cb), "provider"), "name": "o"},
+                              targets=[Obj(label="t", markers={"IInput"}, fields={"name": "t"})], pinged=[Obj(label="t2", markers={"IInput"}, fields={"name": "t2"})])
             tgt = Obj(label="target")
             r1 = it.run(g, [q1, tgt], self_obj=me)
             n1 = len(it.share_checks)
@@ -877,11 +885,10 @@ def r40_cbtime(repo, sink):
     it = _CbRec(repo)
     q = Sym("q")
     it.order.name(q, "q", 1)
-    me = Obj(cls=repo.cls("CallbackOutput"), label="CallbackOutput")
+    from .exchange import built_output
     cb = Obj(label="stub")
-    me.fields.update(callback=Sym("stubcall", Ref(cb), "provider"), _output_info=Obj(label="info"), _out_infos_exchanged=1,
-                     _connected_inputs={Obj(label="t"): None}, last_data=None, logger=Logger(label="logger"), name="o",
-                     _targets=[Obj(label="t")])
+    me = built_output(repo, "CallbackOutput", ctor={"callback": Sym("stubcall", Ref(cb), "provider"), "name": "o"},
+                      targets=[Obj(label="t", markers={"IInput"}, fields={"name": "t"})], pinged=[Obj(label="t2", markers={"IInput"}, fields={"name": "t2"})])
     tgt = Obj(label="target")
     try:
         it.run(f, [q, tgt], self_obj=me)
@@ -969,7 +976,9 @@ def r40_cbtime(repo, sink):
         # keeps the initial data is filled by WeightedSum itself
         conn_stub = Obj(label="stub")
         conn_stub.fields.update(all_data_pulled=True, in_data=stale, in_infos={nm: None for nm in inputs}, infos_pushed={"WeightedSum": True})
-        me.fields.update(inputs=inputs, logger=Logger(label="logger"), connector=conn_stub, _connector=conn_stub, name="ws")
+        me.fields.update(inputs=inputs, logger=Logger(label="logger"), name="ws")
+        from ..absbase import set_backed
+        set_backed(repo, me, "connector", conn_stub)
         prep = _WS(repo)
         prep.store_attr(me, "status", Sym("enum", "ComponentStatus", "CONNECTING"), None)
         cn = repo.resolve(wc, "_connect", "method")
